@@ -206,10 +206,18 @@ def run_check(pid: str, tier: str, replay: Optional[str] = None, repo_root: Opti
         if not ctx.obligations:
             raise AnalysisError('no obligation was produced (vacuous run)')
     except AnalysisError as e:
+        # a rule could not decide.  Violations that other rules established before that point stand on their own: report them
+        # (exit 1) rather than hiding them behind "cannot decide"; with none, the run is analysis-broken (exit 2)
+        already = []
+        if ctx is not None:
+            open_k = {(k['rule'], k['key']) for k in load_known() if k.get('property') == pid and k.get('status') == 'open'}
+            already = [o for o in ctx.obligations if o['status'] == 'violated' and (o['rule'], o['key']) not in open_k]
         out(f'ANALYSIS-ERROR property={pid} {e}')
-        if write_evidence:
-            _write_error_evidence(evid_path, pid, tier, seed, str(e), time.time() - t0)
-        return 2
+        if not already:
+            if write_evidence:
+                _write_error_evidence(evid_path, pid, tier, seed, str(e), time.time() - t0)
+            return 2
+        ctx.infos.append(f'a later rule could not decide: {e}')
     except Exception as e:  # internal error: never let a traceback look like a violation
         tb = traceback.format_exc()
         out(f'ANALYSIS-ERROR property={pid} internal error: {e.__class__.__name__}: {e}')
